@@ -115,8 +115,8 @@ type njOp struct {
 }
 
 type njCase struct {
-	CondName      string    `json:"cond_name"` // query-string name used for conditional fields
-	SkipCounts    bool      `json:"skip_counts,omitempty"`
+	CondName      string    `json:"cond_name"`             // query-string name used for conditional fields
+	SkipCounts    bool      `json:"skip_counts,omitempty"` // fields/counts comparison ignores the field names null-deleted on the master line
 	LenientZero   bool      `json:"lenient_zero,omitempty"`
 	StoreOrderLax bool      `json:"store_order_lax,omitempty"`
 	Pool          []uint64  `json:"pool"`
@@ -166,7 +166,13 @@ func (l *lineState) clone() *lineState {
 	return n
 }
 
+type snapshot struct {
+	uuid string
+	st   model.NJState
+}
+
 type exec struct {
+	snaps   []snapshot
 	c       njCase
 	root    string
 	lines   [2]*lineState
@@ -177,6 +183,7 @@ type exec struct {
 	armed         bool           // a null-delete or replace happened after >=2 partial updates of the same body (master line)
 	nontrivial    bool           // ... and a dual-path comparison followed
 	requests      int64
+	nulled        map[string]bool // fields null-deleted on the master line (their in-memory count is known to drift)
 }
 
 func (e *exec) class(s string) { e.classes[s] = true }
@@ -434,6 +441,13 @@ func (e *exec) applyWrite(l *lineState, li int, u model.NJUpdate, prefix string,
 		e.class("schema/write-rejected")
 		return false, nil
 	}
+	if li == 0 {
+		for _, f := range u.Fields {
+			if _, had := l.st[u.Body][f.Name]; had && strings.TrimSpace(f.Val) == "null" {
+				e.nulled[f.Name] = true
+			}
+		}
+	}
 	l.st[u.Body] = after
 	for _, c := range cls {
 		e.class(c)
@@ -640,6 +654,9 @@ func (e *exec) run() error {
 			if err != nil {
 				return fmt.Errorf("%s: %v", what, err)
 			}
+			if li == 0 {
+				e.snaps = append(e.snaps, snapshot{uuid: l.leaf, st: l.st.Clone()})
+			}
 			l.leaf = child
 			e.class("advance")
 		case "schema":
@@ -780,12 +797,13 @@ func (e *exec) read(uuid string, s readSpec) (reading, error) {
 				return bad(err)
 			}
 		}
-		if s.kind == "fieldlist" && e.c.LenientZero {
+		if s.kind == "fieldlist" && (e.c.LenientZero || e.c.SkipCounts) {
 			var ys []string
 			for _, x := range xs {
-				if x != "" {
-					ys = append(ys, x)
+				if (x == "" && e.c.LenientZero) || (e.c.SkipCounts && e.nulled[x]) {
+					continue
 				}
+				ys = append(ys, x)
 			}
 			xs = ys
 		}
@@ -797,11 +815,9 @@ func (e *exec) read(uuid string, s readSpec) (reading, error) {
 		if err != nil {
 			return bad(err)
 		}
-		if e.c.LenientZero {
-			for k, v := range m {
-				if model.NJCanonValue(v) == "#0" {
-					delete(m, k)
-				}
+		for k, v := range m {
+			if (e.c.LenientZero && model.NJCanonValue(v) == "#0") || (e.c.SkipCounts && e.nulled[k]) {
+				delete(m, k)
 			}
 		}
 		out.norm = model.NJCanonValue(m)
@@ -925,8 +941,39 @@ func rangeViews(pool []uint64, r [2]string) (numInLex, equal bool) {
 	return
 }
 
+// checkSnapshots: committed master versions keep answering with the content they were committed with, also while
+// the in-memory head has moved on and been written to (head tracking across new versions).
+func (e *exec) checkSnapshots(what string) error {
+	from := len(e.snaps) - 2
+	if from < 0 {
+		from = 0
+	}
+	for _, sn := range e.snaps[from:] {
+		r, err := e.read(sn.uuid, readSpec{name: "keys", method: "GET", url: "keys", kind: "strset", mustOK: true})
+		if err != nil {
+			return err
+		}
+		if err := e.checkKeys(r, sn.st, "old-committed", sn.uuid, what); err != nil {
+			return err
+		}
+		for _, id := range e.c.Pool {
+			r, err := e.read(sn.uuid, readSpec{name: "key", method: "GET", url: fmt.Sprintf("key/%d", id), kind: "object"})
+			if err != nil {
+				return err
+			}
+			if err := e.checkKey(r, sn.st, id, "old-committed", sn.uuid, what); err != nil {
+				return err
+			}
+		}
+	}
+	return nil
+}
+
 func (e *exec) compare(cmp njCompare, what string) error {
 	m := e.lines[0]
+	if err := e.checkSnapshots(what + " (earlier committed versions, before committing the head)"); err != nil {
+		return err
+	}
 	if err := drive.Commit(m.leaf); err != nil {
 		return fmt.Errorf("%s: commit: %v", what, err)
 	}
@@ -941,6 +988,7 @@ func (e *exec) compare(cmp njCompare, what string) error {
 		return fmt.Errorf("%s: branch: %v", what, err)
 	}
 	m.leaf = M
+	e.snaps = append(e.snaps, snapshot{uuid: S, st: m.st.Clone()})
 	if e.armed {
 		e.nontrivial = true
 	}
@@ -1034,9 +1082,6 @@ func (e *exec) compare(cmp njCompare, what string) error {
 			rb, err := e.read(B, s)
 			if err != nil {
 				return err
-			}
-			if e.c.SkipCounts && (s.name == "fields" || s.name == "fields-counts") {
-				rm = rs // the memory-side counts are known to drift after a null-delete; keep comparing S with B
 			}
 			// promised order
 			if s.ordered {
@@ -1630,7 +1675,7 @@ func genCase(t *rapid.T) njCase {
 // ---------------------------------------------------------------- test
 
 func checkCase(c njCase) (*exec, error) {
-	e := &exec{c: c, classes: map[string]bool{}, perBodyWrites: map[uint64]int{}}
+	e := &exec{c: c, classes: map[string]bool{}, perBodyWrites: map[uint64]int{}, nulled: map[string]bool{}}
 	if c.CondName == "" {
 		e.c.CondName = "conditional"
 	}
